@@ -40,8 +40,9 @@ func init() {
 var allPlans = append(append([]string{}, fc.PlanKinds...), "zero")
 
 func run(c *core.Ctx) {
-	nDec := c.Scale(14400, 360000)
-	nRT := c.Scale(3600, 90000)
+	runConcurrent(c)
+	nDec := c.Scale(14400, 1800000)
+	nRT := c.Scale(3600, 450000)
 	shapes := fc.LFShapes()
 	if c.Shard == 0 {
 		c.Count("configs_length_field_shapes", int64(len(shapes)))
@@ -491,7 +492,7 @@ func encCases(c *core.Ctx) []encSpec {
 		add(fc.Enc{Kind: fc.Fixed, Fixed: n}, []int{n})
 	}
 	// random extras
-	extra := c.Scale(200, 6000)
+	extra := c.Scale(200, 20000)
 	base := append([]encSpec{}, out...)
 	rng := c.Rand("enc-extra")
 	for k := 0; k < extra; k++ {
